@@ -32,7 +32,11 @@ AQ, HQ = 'Qentem::Array<Qentem::Value<char>>::', 'Qentem::HashTable<Qentem::Stri
 UNCUT = [AQ + 'First', AQ + 'End', AQ + 'Storage', AQ + 'Size', HQ + 'First', HQ + 'Storage', HQ + 'Size', HQ + 'Capacity', HQ + 'getHashTable']
 CUT_QUAL = ['Qentem::String<char>::', 'Qentem::Array<', 'Qentem::HArray<', 'Qentem::HashTable<', 'Qentem::Digit::NumberToString', 'Qentem::JSONUtils::Escape']
 # g_items / g_nitems: the storage the container accessors hand out (set up by the precondition of the function under contract)
-GHOSTS = [('_Bool', 'g_emit'), ('char', 'g_last')]
+# (a ghost pointer that is only constrained by an equality must not be dereferenced in a contract: CBMC's value sets do not follow the equality)
+# g_watch / g_seen / g_k: "the member at the arbitrary position g_k is written": stringifyValue raises g_seen when it is called on g_watch
+GHOSTS = [('_Bool', 'g_emit'), ('char', 'g_last'), ('const ' + VAL + ' *', 'g_watch'), ('_Bool', 'g_seen'), ('unsigned int', 'g_k')]
+SEEN = ['g_seen || !__CPROVER_old(g_seen)']
+ASG = ['g_emit', 'g_last', 'g_seen']
 
 from lib_parser import VT, UNDEF, OBJ, ARR, STR, kind_in
 PTR = VT['ValuePtr']
@@ -64,8 +68,9 @@ def sv_spec(enforce):
         # numbers would need well-formed owned storage, which the generated harness cannot build)
         hs = ['__CPROVER_assume(o_val.type_ == 0 || o_val.type_ == 1 || (o_val.type_ >= 8 && o_val.type_ <= 10));',
               'static struct Value__char qx_tgt; qx_tgt.number_.Natural = 0; qx_tgt.type_ = (unsigned char)(8 + (precision % 3)); if (o_val.type_ == 1) o_val.value_ = &qx_tgt;']
-    return dict(requires=req, ensures=ens, assigns=['g_emit', 'g_last'], harness_setup=hs,
-                cex_stub='  if (val->type_ != 0) { g_emit = 1; g_last = (val->type_ == %d) ? 125 : (val->type_ == %d) ? 93 : (val->type_ == %d) ? 34 : 101; }' % (OBJ, ARR, STR))
+    ens = ens + ['val == g_watch ==> g_seen'] + SEEN
+    return dict(requires=req, ensures=ens, assigns=ASG, harness_setup=hs, ghost_returns=(['if (val == g_watch) g_seen = 1'] if enforce else None),
+                cex_stub='  if (val == g_watch) g_seen = 1; if (val->type_ != 0) { g_emit = 1; g_last = (val->type_ == %d) ? 125 : (val->type_ == %d) ? 93 : (val->type_ == %d) ? 34 : 101; }' % (OBJ, ARR, STR))
 
 
 def sa_spec(enforce):
@@ -73,12 +78,16 @@ def sa_spec(enforce):
     if enforce:
         req = ['__CPROVER_is_fresh(arr, sizeof(*arr))', '__CPROVER_is_fresh(stream, sizeof(*stream))', '!g_emit',
                # representation invariant of Array: storage_ holds index_ elements
-               'arr->index_ <= (1u << 24)', '__CPROVER_is_fresh(arr->storage_, ((__CPROVER_size_t)arr->index_) * sizeof(%s))' % VAL]
+               'arr->index_ <= (1u << 24)', '__CPROVER_is_fresh(arr->storage_, ((__CPROVER_size_t)arr->index_) * sizeof(%s))' % VAL,
+               # the arbitrary element g_k (if there is one) is the watched value
+               '!g_seen', 'g_k < arr->index_ ==> g_watch == arr->storage_ + g_k']
+        ens = ens + ['(g_k < arr->index_ && arr->storage_[g_k].type_ != %d) ==> g_seen' % UNDEF]
         loops = {0: dict(invariant=['__CPROVER_same_object(item, end)', '__CPROVER_POINTER_OFFSET(item) <= __CPROVER_POINTER_OFFSET(end)',
-                                    '((unsigned int)__CPROVER_POINTER_OFFSET(item)) %% (unsigned int)sizeof(%s) == 0' % VAL, 'g_emit', 'g_last == 91 || g_last == 44'],
-                         decreases='__CPROVER_POINTER_OFFSET(end) - __CPROVER_POINTER_OFFSET(item)', assigns='item, g_emit, g_last')}
-        return dict(requires=req, ensures=ens, assigns=['g_emit', 'g_last'], loops=loops)
-    return dict(requires=['__CPROVER_r_ok(arr, sizeof(*arr))'], ensures=ens, assigns=['g_emit', 'g_last'], cex_stub='  g_emit = 1; g_last = 93;')
+                                    '((unsigned int)__CPROVER_POINTER_OFFSET(item)) %% (unsigned int)sizeof(%s) == 0' % VAL, 'g_emit', 'g_last == 91 || g_last == 44',
+                                    '(g_k < arr->index_ && __CPROVER_POINTER_OFFSET(item) > ((__CPROVER_size_t)g_k) * sizeof(%s) && arr->storage_[g_k].type_ != %d) ==> g_seen' % (VAL, UNDEF)],
+                         decreases='__CPROVER_POINTER_OFFSET(end) - __CPROVER_POINTER_OFFSET(item)', assigns='item, g_emit, g_last, g_seen')}
+        return dict(requires=req, ensures=ens, assigns=ASG, loops=loops)
+    return dict(requires=['__CPROVER_r_ok(arr, sizeof(*arr))'], ensures=ens + SEEN, assigns=ASG, cex_stub='  g_emit = 1; g_last = 93;')
 
 
 def so_spec(enforce):
@@ -87,13 +96,17 @@ def so_spec(enforce):
         req = ['__CPROVER_is_fresh(obj, sizeof(*obj))', '__CPROVER_is_fresh(stream, sizeof(*stream))', '!g_emit',
                # representation invariant of HashTable: one block holding capacity_ bucket heads followed by capacity_ item slots, index_ of them in use
                'obj->qx_base.capacity_ <= (1u << 20) && obj->qx_base.index_ <= obj->qx_base.capacity_',
-               '__CPROVER_is_fresh(obj->qx_base.hashTable_, ((__CPROVER_size_t)obj->qx_base.capacity_) * (sizeof(unsigned int) + sizeof(%s)))' % ITEM]
+               '__CPROVER_is_fresh(obj->qx_base.hashTable_, ((__CPROVER_size_t)obj->qx_base.capacity_) * (sizeof(unsigned int) + sizeof(%s)))' % ITEM,
+               # the arbitrary member g_k (if there is one) holds the watched value
+               '!g_seen', 'g_k < obj->qx_base.index_ ==> g_watch == &((%s *)(obj->qx_base.hashTable_ + obj->qx_base.capacity_))[g_k].Value' % ITEM]
+        ens = ens + ['(g_k < obj->qx_base.index_ && ((%s *)(obj->qx_base.hashTable_ + obj->qx_base.capacity_))[g_k].Value.type_ != %d) ==> g_seen' % (ITEM, UNDEF)]
         loops = {0: dict(invariant=['__CPROVER_same_object(h_item, end)', '__CPROVER_POINTER_OFFSET(h_item) <= __CPROVER_POINTER_OFFSET(end)',
                                     '__CPROVER_POINTER_OFFSET(h_item) >= 4 * (__CPROVER_size_t)obj->qx_base.capacity_',
-                                    '((unsigned int)(__CPROVER_POINTER_OFFSET(h_item) - 4 * (__CPROVER_size_t)obj->qx_base.capacity_)) %% (unsigned int)sizeof(%s) == 0' % ITEM, 'g_emit', 'g_last == 123 || g_last == 44'],
-                         decreases='__CPROVER_POINTER_OFFSET(end) - __CPROVER_POINTER_OFFSET(h_item)', assigns='h_item, g_emit, g_last')}
-        return dict(requires=req, ensures=ens, assigns=['g_emit', 'g_last'], loops=loops)
-    return dict(requires=['__CPROVER_r_ok(obj, sizeof(*obj))'], ensures=ens, assigns=['g_emit', 'g_last'], cex_stub='  g_emit = 1; g_last = 125;')
+                                    '((unsigned int)(__CPROVER_POINTER_OFFSET(h_item) - 4 * (__CPROVER_size_t)obj->qx_base.capacity_)) %% (unsigned int)sizeof(%s) == 0' % ITEM, 'g_emit', 'g_last == 123 || g_last == 44',
+                                    '(g_k < obj->qx_base.index_ && __CPROVER_POINTER_OFFSET(h_item) > 4 * (__CPROVER_size_t)obj->qx_base.capacity_ + ((__CPROVER_size_t)g_k) * sizeof(%s) && ((%s *)(obj->qx_base.hashTable_ + obj->qx_base.capacity_))[g_k].Value.type_ != %d) ==> g_seen' % (ITEM, ITEM, UNDEF)],
+                         decreases='__CPROVER_POINTER_OFFSET(end) - __CPROVER_POINTER_OFFSET(h_item)', assigns='h_item, g_emit, g_last, g_seen')}
+        return dict(requires=req, ensures=ens, assigns=ASG, loops=loops)
+    return dict(requires=['__CPROVER_r_ok(obj, sizeof(*obj))'], ensures=ens + SEEN, assigns=ASG, cex_stub='  g_emit = 1; g_last = 125;')
 
 
 def pub_spec():
@@ -103,15 +116,15 @@ def pub_spec():
                 ensures=['%s == %d ==> (g_emit && g_last == 125)' % (k, OBJ), '%s == %d ==> (g_emit && g_last == 93)' % (k, ARR),
                          '(%s == %d && %s == %d) ==> (g_emit && g_last == 125)' % (k, PTR, pk, OBJ), '(%s == %d && %s == %d) ==> (g_emit && g_last == 93)' % (k, PTR, pk, ARR),
                          '__CPROVER_return_value == stream'],
-                assigns=['g_emit', 'g_last'])
+                assigns=ASG)
 
 
 def pub_callee():
     k = 'self->type_'
     return dict(requires=['__CPROVER_r_ok(self, sizeof(*self))'],
                 ensures=['g_emit || !__CPROVER_old(g_emit)', '%s == %d ==> (g_emit && g_last == 125)' % (k, OBJ), '%s == %d ==> (g_emit && g_last == 93)' % (k, ARR),
-                         '__CPROVER_return_value == stream'],
-                assigns=['g_emit', 'g_last'], cex_stub='  if (self->type_ == %d) { g_emit = 1; g_last = 125; } if (self->type_ == %d) { g_emit = 1; g_last = 93; } return stream;' % (OBJ, ARR))
+                         '__CPROVER_return_value == stream'] + SEEN,
+                assigns=ASG, cex_stub='  if (self->type_ == %d) { g_emit = 1; g_last = 125; } if (self->type_ == %d) { g_emit = 1; g_last = 93; } return stream;' % (OBJ, ARR))
 
 
 def stream_specs():
